@@ -38,9 +38,9 @@ def eval_ab(case):
     payload = wire.kexinit(B(L[0]), B(L[1]), B(L[3]), B(L[5]), B(L[7]), enc_c=B(L[2]), mac_c=B(L[4]), comp_c=B(L[6]))
     spec = {'kexinit_raw': fakenet.b2j(payload), 'banner': 'SSH-2.0-OpenSSH_8.9p1 Ubuntu-3', 'hostkeys': {'ssh-ed25519': {'t': 'ed25519'}, 'ssh-rsa': {'t': 'rsa', 'bits': 2048}}, 'moduli': [2048], 'gex_style': 'roundup'}
     ra, rb, pa, pb, eof = abcheck.run_both(spec, case['opts'])
-    abcheck.assert_agree(ra, rb, 'C01 %r' % (case['opts'],))
+    agree = abcheck.assert_agree(ra, rb, 'C01 %r' % (case['opts'],))
     r = eval_case(dict(case, kind=None, role='server', probes=False))
-    return mkres(case, nt=True, classes=['engine-B'], fails=r['fails'])
+    return mkres(case, nt=True, classes=['engine-B'] + ([] if agree else ['AB-disagree']), fails=r['fails'])
 
 
 def eval_case(case):
